@@ -41,6 +41,18 @@ static _Bool same(const cfg_opt_t *o, const snap_t *s)
 	return 1;
 }
 
+/* the same values in the same slots, same count, annotation and markers (the slot ARRAY may have been moved by a realloc
+ * that succeeded before a later allocation failed) */
+static _Bool same_content(const cfg_opt_t *o, const snap_t *s)
+{
+	if (o->nvalues != s->nvalues || o->flags != s->flags || o->comment != s->comment)
+		return 0;
+	for (unsigned i = 0; i < NV + 2; i++)
+		if (i < o->nvalues && (o->values[i] != s->slot[i] || o->values[i]->number != s->pay[i]))
+			return 0;
+	return 1;
+}
+
 static long g_simple_store;   /* target of a "simple" option */
 
 static cfg_t *mk_fake_section(void)
@@ -138,6 +150,9 @@ static void b_opt_getval(cfg_type_t t, unsigned n, _Bool simple, unsigned idx)
 
 	r = cfg_opt_getval(&o, in_index);
 
+#ifdef CFGV_NO_ALLOC_FAILURE
+	if (in_index == 0 || (in_flags & (CFGF_LIST | CFGF_MULTI))) CHECK("C09", r != NULL, "a legal index resolves to a slot (no allocation failure in this unit)");
+#endif
 	if (in_index != 0 && !(in_flags & CFGF_LIST) && !(in_flags & CFGF_MULTI)) {
 		CHECK("C09,C10", r == NULL, "an index beyond a scalar is refused");
 		CHECK("C09,C10", same(&o, &s), "a refused index leaves values, count, annotation and default/modified markers untouched");
@@ -198,6 +213,13 @@ static void b_opt_setnint(cfg_type_t t, unsigned n, _Bool simple, unsigned idx)
 					CHECK("C09", o.values[i] == s.slot[i] && o.values[i]->number == s.pay[i], "the other values keep their place and content");
 		}
 	}
+	if (t == CFGT_INT && (in_index == 0 || (in_flags & (CFGF_LIST | CFGF_MULTI)))) {
+		if (rc != CFG_SUCCESS && !in_simple && !(in_flags & CFGF_RESET))
+			CHECK("C10,C18,C09", same_content(&o, &s), "a setter that reports failure has stored nothing: values, count, annotation and markers of a non-default option are as before");
+#ifdef CFGV_NO_ALLOC_FAILURE
+		CHECK("C09", rc == CFG_SUCCESS, "a legal setter call succeeds (no allocation failure in this unit)");
+#endif
+	}
 	CHECK("C09", cfg_opt_setnint(NULL, v, 0) == CFG_FAIL, "NULL option fails");
 }
 void h_opt_setnint(void)
@@ -238,6 +260,13 @@ static void b_opt_setnfloat_bool(cfg_type_t t, unsigned n, _Bool which, unsigned
 			CHECK("C09", o.nvalues == ((in_flags & CFGF_RESET) ? 1 : (in_index < in_n ? in_n : in_n + 1)), "float/bool setter: count as the store prescribes");
 			CHECK("C09", which ? o.values[at]->fpnumber == d : o.values[at]->boolean == b, "float/bool setter: the value is stored at its index");
 		}
+		if (t == want && legal) {
+			if (rc != CFG_SUCCESS && !(in_flags & CFGF_RESET))
+				CHECK("C10,C18,C09", same_content(&o, &s), "float/bool setter: a call that reports failure has stored nothing");
+#ifdef CFGV_NO_ALLOC_FAILURE
+			CHECK("C09", rc == CFG_SUCCESS, "float/bool setter: a legal call succeeds (no allocation failure in this unit)");
+#endif
+		}
 	}
 }
 void h_opt_setnfloat_bool(void)
@@ -277,6 +306,11 @@ static void b_opt_setnstr(cfg_type_t t, unsigned n, unsigned idx)
 	{
 		_Bool legal = in_index == 0 || (in_flags & (CFGF_LIST | CFGF_MULTI));
 		CHECK("C09,C10", (t == CFGT_STR && legal) || (rc == CFG_FAIL && same(&o, &s)), "string setter: wrong type or index > 0 on a scalar fails without effect");
+#ifdef CFGV_NO_ALLOC_FAILURE
+		if (t == CFGT_STR && legal) CHECK("C09", rc == CFG_SUCCESS, "string setter: a legal call succeeds (no allocation failure in this unit)");
+#endif
+		if (t == CFGT_STR && legal && rc != CFG_SUCCESS && !(in_flags & CFGF_RESET) && in_index < in_n)
+			CHECK("C10,C18,C09", same_content(&o, &s), "string setter: a call on an existing slot that reports failure has stored nothing");
 		if (t == CFGT_STR && legal && rc == CFG_SUCCESS) {
 			unsigned at = (in_flags & CFGF_RESET) ? 0 : (in_index < in_n ? in_index : in_n);
 			CHECK("C09", o.flags & CFGF_MODIFIED, "a successful string setter marks the option modified");
@@ -332,6 +366,9 @@ void h_opt_setcomment(void)
 
 	CHECK("C15,C18", rc == CFG_SUCCESS || same(&o, &s), "setcomment: failure (NULL text, allocation failure) changes nothing");
 	CHECK("C15", c != NULL || rc == CFG_FAIL, "setcomment: NULL text is refused");
+#ifdef CFGV_NO_ALLOC_FAILURE
+	CHECK("C15", c == NULL || rc == CFG_SUCCESS, "setcomment: a text is accepted (no allocation failure in this unit)");
+#endif
 	if (rc == CFG_SUCCESS) {
 		CHECK("C15,C16", o.comment != NULL && o.comment != c && strcmp(o.comment, c) == 0, "setcomment stores a private copy of the text");
 		CHECK("C15", (o.flags & CFGF_COMMENTS) && (o.flags & CFGF_MODIFIED), "setcomment marks the option annotated and modified");
